@@ -171,6 +171,7 @@ func runC14(c *Ctx, r *Report) {
 	c14r4(c, r)
 	c14r5(c, r)
 	c14round2(c, r)
+	c14r8(c, r)
 }
 
 func c14r1(c *Ctx, r *Report) {
